@@ -76,7 +76,7 @@ class Ctx:
                     print(f"KNOWN-FINDING: property={self.pid} {k['what']}")
                 return
         if any(v[0] == key for v in self.violations): return
-        if len(self.violations) >= 5: return
+        if sum(1 for v in self.violations if v[3] == found_input) >= (5 if found_input else 3): return
         os.makedirs(os.path.join(VERIF, "replays"), exist_ok=True)
         body = json.dumps(jsonable(dict(property=self.pid, key=key, summary=summary, seed=self.seed, tier=self.tier,
                                         found_failing_input=found_input, **replay)), indent=1, sort_keys=True)
@@ -101,7 +101,9 @@ class Ctx:
                   assumptions=assumptions, wall_s=round(wall, 2), violations=len(self.violations))
         os.makedirs(os.path.join(VERIF, "evidence"), exist_ok=True)
         open(os.path.join(VERIF, "evidence", self.pid + ".json"), "w").write(json.dumps(ev, indent=1))
-        for key, path, summary, found in self.violations:
+        # violations with a failing input of the property first; a disagreement with the model alone (or a proof that no longer checks) is
+        # reported as well - the property is no longer shown to hold - and says that no failing input was found
+        for key, path, summary, found in sorted(self.violations, key=lambda v: not v[3]):
             print(f"VIOLATION property={self.pid} replay={path} {summary[:300]}" + ("" if found else " no-failing-input-found"))
         return 1 if self.violations else 0
 
